@@ -12,17 +12,32 @@ OWNED = {'outcome': 'outcome', 'false_pass': 'false PASS', 'executor_crash': 'ex
          'no_return': 'execute() did not return'}
 
 
+def fam_allskip():
+  """every phase record SKIP - some of them written by an invocation that asked for a REPEAT - is an
+  ERROR run ("the phase records (if any exist) are not all SKIP")"""
+  from vf.progs import beh, opts, phase, program, subtest
+  out = []
+  for limit in (2, 3):
+    p = lambda n: phase(n, beh('RKC'), o=opts(limit=limit))
+    out.append(program([p('p')]))
+    out.append(program([p('p'), phase('q', beh('KC'))]))
+    out.append(program([subtest('s1', [p('p')]), phase('q', beh('K'))]))
+  return out
+
+
 def families(tier):
   if tier == 'quick':
     return [('ladder', execlib.fam_ladder(tier)),
             ('structure3', execlib.fam_structure(3, 'PQUG', 'CFXES')),
             # a STOP / FAIL_SUBTEST checkpoint or a branch that does not fire turns into a false PASS
             ('branches2', execlib.fam_branches(2, range(8))),
-            ('checkpoint-context', execlib.fam_checkpoint_context())]
+            ('checkpoint-context', execlib.fam_checkpoint_context()),
+            ('all-skip', fam_allskip())]
   return [('ladder', execlib.fam_ladder(tier)),
           ('structure4', execlib.fam_structure(4, 'PQUG', 'CFXES')),
           ('branches3', execlib.fam_branches(3, range(8))),
           ('checkpoint-context', execlib.fam_checkpoint_context()),
+          ('all-skip', fam_allskip()),
           ('options', execlib.fam_options(tier)),
           ('table', execlib.fam_table(tier))]
 
